@@ -60,6 +60,41 @@ def bootstrap_orphan(results, lock):
     p.wait()
 
 
+def sim_worker_side(ctx):
+    """S1: the real WorkerGateway.serve() in the simulator; the initiator's stream ends after n bytes (0 = right at the end of the
+    bootstrap, before the worker has set itself up), under explored schedules: the worker side must always wind down by itself"""
+    from drivers import gwcommon as gc
+    from sim import gwrun
+
+    def prog(threads, bodies):
+        return {"threads": [{"name": n, "side": "i", "ops": ops} for n, ops in threads], "bodies": {str(k): v for k, v in bodies.items()}}
+
+    progs = [
+        prog([("u1", [])], {}),
+        prog([("u1", [("remote_exec", "c", 1)])], {1: [("receive", "channel")]}),
+        prog([("u1", [("remote_exec", "c", 1), ("receive", "c")])],
+             {1: [("newchannel", "k"), ("setcallback", "k", False), ("sendchan", "channel", "k"), ("drop", "k"), ("receive", "channel")]}),
+        prog([("u1", [("remote_exec", "c", 1), ("remote_exec", "d", 2)])], {1: [("receive", "channel")], 2: [("sleep", 100)]}),
+    ]
+    jobs = []
+    for p in progs:
+        for n in (0, 1, 5, 9, 12, 40, 80, 200):
+            base = {"post_yields": True, "cut": ("i>w", n)}
+            jobs.append((p, ("first",), base))
+            for k in range(6 if ctx.quick else 40):
+                o = dict(base)
+                if k % 3 == 2:
+                    o["line_level"] = ["serve", "_thread_receiver", "_finished_receiving", "_terminate_execution", "_no_longer_opened", "_local_close"]
+                jobs.append((p, ("random", ctx.seed * 131 + n * 7 + k), o))
+    searches = [(progs[0], 1, 600 if ctx.quick else 4000, {"post_yields": True, "cut": ("i>w", 0)}),
+                (progs[0], 2, 300 if ctx.quick else 4000, {"post_yields": True, "cut": ("i>w", 0)}),
+                (progs[1], 1, 400 if ctx.quick else 4000, {"post_yields": True, "cut": ("i>w", 0)}),
+                (progs[2], 1, 400 if ctx.quick else 4000, {"post_yields": True, "cut": ("i>w", 200)})]
+    res = gc.run_and_judge(ctx, jobs, ["C11.", "GEN.", "C04.blocked"], lambda evs: any(e["ev"] == "down" for e in evs), searches=searches)
+    gwrun.close_pool()
+    return res
+
+
 def run(ctx):
     rng = random.Random(ctx.seed + 11)
     r = tlc.run("Termination", "TM.cfg", scratch=ctx.scratch, timeout=600)
@@ -69,7 +104,7 @@ def run(ctx):
     if not m.violated or m.violated == "error":
         ctx.machinery("TLC mutant TM_softexit (sys.exit instead of os._exit) not killed")
     ctx.note(f"TLC Termination/TM: {r.generated} states over all environments x time-outs x both halves; mutant TM_softexit killed by {m.violated}")
-    envs = ["idle", "receive", "busy", "sleep", "swallow", "sigign", "thread", "sending"]
+    envs = ["idle", "receive", "busy", "sleep", "swallow", "sigign", "thread", "sending", "cbdropped"]
     base = []
     for env in envs:
         base.append({"env": env, "execmodel": "thread", "topo": "popen"})
@@ -107,8 +142,10 @@ def run(ctx):
             nontrivial.add((c["env"], c["execmodel"], c["topo"], c["death"]))
         if vd != "ok":
             ctx.violation(f"{vd}: {json.dumps(c)}", c, key=KNOWN.get(vd))
+    simres = sim_worker_side(ctx)
     ctx.coverage.update({
-        "states": r.distinct, "transitions": r.generated, "traces_validated_against_impl": len(cases),
+        "simulated_worker_runs": {"runs": simres["runs"], "distinct_traces": simres["distinct"], "verdicts": simres["hist"]},
+        "states": r.distinct, "transitions": r.generated, "traces_validated_against_impl": len(cases) + simres["distinct"],
         "evaluations": len(cases), "distinct_nontrivial": len(nontrivial),
         "rule": "initiator processes create workers (popen, popen//python=, via, socket//installvia; thread, main_thread_only, gevent) running generated "
                 "activities (idle, blocked in receive, busy loop, sleeping, swallowing KeyboardInterrupt, SIGINT ignored, extra daemon thread, blocked "
